@@ -19,13 +19,15 @@ def cli_check(solver, timeout_ms, want_model=False, opts=(), stage="cli"):
         f.write(txt)
         path = f.name
     t0 = time.time()
+    cpu0 = budget.children_cpu()
     try:
         cmd = ["z3-new", f"-T:{secs}", f"rlimit={lim}"] + (["-st"] if budget.LOG else []) + list(opts) + [path]
-        p = subprocess.run(cmd, capture_output=True, text=True, timeout=secs + 10)
+        p = subprocess.run(cmd, capture_output=True, text=True, timeout=secs + 10,
+                           preexec_fn=budget.limit_cpu(budget.cpu_s(timeout_ms, stage)))
         out = p.stdout.strip()
         first = out.splitlines()[0].strip() if out else "unknown"
-        if first == "timeout":
-            budget.wall_hit(stage)
+        if first == "timeout" and budget.stopped_by_wall_clock(cpu0, timeout_ms, stage):
+            budget.wall_hit(stage)          # wall clock, not the CPU cap: machine too busy, no verdict
         if first not in ("sat", "unsat"):
             first = "unknown"
         if budget.LOG:
@@ -39,7 +41,8 @@ def cli_check(solver, timeout_ms, want_model=False, opts=(), stage="cli"):
                 mt = mt[:k]
         return first, mt
     except subprocess.TimeoutExpired:
-        budget.wall_hit(stage)
+        if budget.stopped_by_wall_clock(cpu0, timeout_ms, stage):
+            budget.wall_hit(stage)
         return "unknown", ""
     except Exception:  # noqa (missing binary ...)
         return "unknown", ""
